@@ -245,6 +245,11 @@ bool WFXMLScanner::scanNext(XMLPScanToken& token)
     if (!isLegalToken(token))
         ThrowXMLwithMemMgr(RuntimeException, XMLExcepts::Scan_BadPScanToken, fMemoryManager);
 
+    // The scan this token belongs to has already ended (end of document, fatal error,
+    // or the reader manager was reset by loadGrammar): there is nothing more to deliver.
+    if (!fReaderMgr.getCurrentReader())
+        return false;
+
     // Find the next token and remember the reader id
     XMLSize_t orgReader;
     XMLTokens curToken;
